@@ -28,8 +28,8 @@ MUTS = [
  ('M2', 'defect', "defaults swapped: Enabled -> 0.0, otherwise 1.0",
   rep("default_defense_value = 1.0\n                else:\n                    default_defense_value = 0.0",
       "default_defense_value = 0.0\n                else:\n                    default_defense_value = 1.0")),
- ('M3', 'defect', "dropped guard `defense.ttc and` (a defense without TTC now raises TypeError)",
-  rep("if defense.ttc and defense.ttc['name'] == 'Enabled':", "if defense.ttc['name'] == 'Enabled':")),
+ ('M3', 'defect', "dropped guard `defense.ttc and` (a defense without TTC now raises AttributeError)",
+  rep("if defense.ttc and defense.ttc.get('name') == 'Enabled':", "if defense.ttc.get('name') == 'Enabled':")),
  ('M4', 'defect', "sub-entry name with left and right asset swapped",
   rep("subentry_name = assoc.name + '_' + assoc.left_field.asset.name + '_' \\\n                + assoc.right_field.asset.name",
       "subentry_name = assoc.name + '_' + assoc.right_field.asset.name + '_' \\\n                + assoc.left_field.asset.name")),
@@ -69,6 +69,10 @@ MUTS = [
   rep("len(assoc_entry['definitions']) > 1:", "len(assoc_entry['definitions']) > 0:")),
  ('M15', 'defect', "empty `oneOf` no longer removed (`if not` -> `if`)",
   rep("if not self.json_schema['definitions'][definition]['oneOf']:", "if self.json_schema['definitions'][definition]['oneOf']:")),
+ ('M16', 'defect', "fix 6addd5c reverted: `defense.ttc.get('name')` -> `defense.ttc['name']` (KeyError on a composite TTC)",
+  rep("defense.ttc.get('name')", "defense.ttc['name']")),
+ ('M17', 'defect', "`.get('name')` with the default 'Enabled' (a composite TTC would default to 1)",
+  rep("defense.ttc.get('name')", "defense.ttc.get('name', 'Enabled')")),
  ('P1', 'harmless', "local `asset_json_entry` of _generate_assets renamed",
   lambda s: s.replace(s[s.index("    def _generate_assets"):s.index("    def _generate_associations")],
                       s[s.index("    def _generate_assets"):s.index("    def _generate_associations")].replace("asset_json_entry", "entry"))),
